@@ -1,7 +1,6 @@
 // C12 for CorrelationTrendIndicator on a FULL window (k = N): invariant under x -> a x + b, a > 0, and negated by negation.
 // (On a partially filled window the code multiplies by N instead of k and is not offset-invariant: open finding C12/cti.)
-use crate::props::c04_averages::*;
-use crate::props::c12_normalised::*;
+use crate::props::c00_affine::*;
 use crate::props::c07_cti_bound::*;
 
 pub proof fn lemma_ixsum_affine(w: Seq<T>, a: real, b: real)
